@@ -929,7 +929,8 @@ impl Number {
                 Number::BigInt(rhs) => Some((BigInt::from(lhs.to_i64().unwrap()) / &**rhs).into()),
                 Number::Rational(rhs) => {
                     if rhs.is_integer() {
-                        Some((lhs / rhs).into())
+                        // truncating integer division, like the arms above (lhs / rhs is the exact ratio)
+                        Some((lhs.to_i64().unwrap() / rhs.to_i64().unwrap()).into())
                     } else {
                         None
                     }
